@@ -222,7 +222,7 @@ def run(ctx):
                 reported.add('corr:' + nm)
                 ctx.violation('corr:' + nm, 'implementation and Pyc.Emit.%s disagree on %r: model %r, implementation %r' % (nm, l, m, a),
                               dict(kind='kernel', name=nm, line=l, model=m, impl=a), found_input=False)
-    bases = ['constructed', 'reloaded'] + c02.CORPUS
+    bases = ['constructed', 'reloaded', 'docgen', 'docgen', 'docgen'] + c02.CORPUS
     for i in range(ctx.n(150, 5000)):
         kind = bases[i % len(bases)] if i % 3 == 2 else ('constructed' if i % 3 == 0 else 'reloaded')
         seed = ctx.rng.randrange(10 ** 9)
